@@ -11,7 +11,7 @@ TB = ("TLC 1.8 + the specifications in /verif/spec (Wire.tla written from MS-LLT
       "re-parse the bytes actually delivered")
 
 CHECKS = {
-    "C01": ("exploration", "2.2/3 C01",
+    "C01": ("exploration", "3 C01, 2.1 BoundsMC",
             "model-generated and boundary/noise histories through all three receive entry points in exact-MTU heap buffers under ASan/UBSan "
             "(-fno-sanitize-recover); trace must be complete and accepted with Check=C02; bounds logic (read extent <= MTU) model-checked in ResponderMC",
             "TLA+ bounds model + sanitizer-observed trace replay"),
